@@ -127,6 +127,8 @@ struct ActiveState {
 }
 
 struct ClosingState {
+    local_nonce: u32,
+    remote_nonce: u32,
     request_bytes: Box<[u8]>,
     resend_time_ms: u64,
     resend_count: u8,
@@ -495,6 +497,19 @@ impl Client {
                     let _ = self.socket.send(&reply.write());
                 }
             }
+            State::Closing(ref state) => {
+                // As above: if our initial ACK was dropped, the server has not established the
+                // connection yet and ignores our disconnection request until it receives one.
+                // Without an ACK both sides would run into their timeouts although they can reach
+                // each other.
+
+                if frame.nonce_ack == state.local_nonce && frame.nonce == state.remote_nonce {
+                    let reply = frame::Frame::HandshakeAckFrame(frame::HandshakeAckFrame {
+                        nonce_ack: frame.nonce,
+                    });
+                    let _ = self.socket.send(&reply.write());
+                }
+            }
             _ => (),
         }
     }
@@ -717,6 +732,8 @@ impl Client {
                     let _ = self.socket.send(&request_bytes);
 
                     self.state = State::Closing(ClosingState {
+                        local_nonce: state.local_nonce,
+                        remote_nonce: state.remote_nonce,
                         request_bytes,
                         resend_time_ms: now_ms + DISCONNECT_RESEND_INTERVAL_MS,
                         resend_count: DISCONNECT_RESEND_COUNT,
